@@ -767,7 +767,7 @@ pub fn judge(c: &Case13, o: &Obs13) -> Vec<Violation> {
 // ---------------------------------------------------------------------------------------------
 // enumeration
 
-fn resp_chunkings(len: usize) -> Vec<(Chunking, String)> {
+fn resp_chunkings(len: usize, thorough: bool) -> Vec<(Chunking, String)> {
     let mut out: Vec<(Chunking, String)> = Vec::new();
     if len == 0 {
         out.push((Chunking::Lens(vec![]), "no-chunks".into()));
@@ -792,6 +792,13 @@ fn resp_chunkings(len: usize) -> Vec<(Chunking, String)> {
             push(Chunking::cuts(len, &[p]), format!("cut@{p}"), &mut out);
         }
         push(Chunking::Ones, "ones".into(), &mut out);
+        if thorough && len <= 10 {
+            for mask in 0..(1u64 << (len - 1)) {
+                let c = Chunking::composition(len, mask);
+                let label = format!("comp:{:?}", c.lens(len));
+                push(c, label, &mut out);
+            }
+        }
     } else {
         for t in [1023usize, 1024, 1025, 2048, 2049] {
             if len > t {
@@ -846,7 +853,7 @@ fn ae_menu(thorough: bool) -> Vec<Option<Vec<String>>> {
         }
     }
     if thorough {
-        let tq: [Option<&str>; 3] = [None, Some("0.5"), Some("0")];
+        let tq: [Option<&str>; 5] = [None, Some("1"), Some("0.5"), Some("0"), Some("0.001")];
         for a in tokens {
             for b in tokens {
                 for c in tokens {
@@ -857,6 +864,30 @@ fn ae_menu(thorough: bool) -> Vec<Option<Vec<String>>> {
                         for qb in tq {
                             for qc in tq {
                                 out.push(Some(vec![format!("{}, {}, {}", item(a, qa), item(b, qb), item(c, qc))]));
+                            }
+                        }
+                    }
+                }
+            }
+        }
+    }
+    if thorough {
+        let fq: [Option<&str>; 2] = [None, Some("0")];
+        for a in tokens {
+            for b in tokens {
+                for c in tokens {
+                    for d in tokens {
+                        let set: BTreeSet<&str> = [a, b, c, d].into_iter().collect();
+                        if set.len() != 4 {
+                            continue;
+                        }
+                        for qa in fq {
+                            for qb in fq {
+                                for qc in fq {
+                                    for qd in fq {
+                                        out.push(Some(vec![format!("{}, {}, {}, {}", item(a, qa), item(b, qb), item(c, qc), item(d, qd))]));
+                                    }
+                                }
                             }
                         }
                     }
@@ -883,7 +914,9 @@ pub fn enumerate(tier: &str) -> Vec<Case13> {
     let thorough = tier == "thorough";
     let mut cases = Vec::new();
     let lens: Vec<usize> = if thorough {
-        vec![0, 1, 2, 13, 64, 1023, 1024, 1025, 2048, 2049, 4096, 70_000]
+        let mut v: Vec<usize> = (0..=16).collect();
+        v.extend([33, 63, 64, 65, 1022, 1023, 1024, 1025, 1026, 2047, 2048, 2049, 2050, 4096, 8191, 8192, 8193, 70_000, 300_000]);
+        v
     } else {
         vec![0, 1, 2, 13, 64, 1023, 1024, 1025, 2048, 2049]
     };
@@ -917,7 +950,7 @@ pub fn enumerate(tier: &str) -> Vec<Case13> {
                 continue;
             }
             for ae in &p1_ae {
-                for (chunking, shape) in resp_chunkings(len) {
+                for (chunking, shape) in resp_chunkings(len, thorough) {
                     let single = chunking.lens(len).len() == 1;
                     let mut types = vec![BodyType::Sized, BodyType::Stream];
                     if single {
@@ -1018,7 +1051,7 @@ pub fn enumerate(tier: &str) -> Vec<Case13> {
 
     // P4: request side
     let req_lens: Vec<usize> = if thorough {
-        vec![0, 1, 13, 64, 1023, 1024, 1025, 2048, 2049, 4096, 8192, 70_000]
+        vec![0, 1, 2, 3, 13, 64, 65, 1023, 1024, 1025, 2047, 2048, 2049, 2050, 4096, 8192, 70_000, 300_000]
     } else {
         vec![0, 1, 13, 64, 1023, 1024, 1025, 2048, 2049, 4096]
     };
@@ -1047,7 +1080,7 @@ pub fn enumerate(tier: &str) -> Vec<Case13> {
                     if m >= 2 {
                         push(Chunking::Lens(vec![m / 2, 0, m - m / 2]), "empty-middle".into(), &mut chs);
                     }
-                    if m <= 64 {
+                    if m <= 64 || thorough && m <= 300 {
                         for p in 1..m {
                             push(Chunking::cuts(m, &[p]), format!("cut@{p}"), &mut chs);
                         }
